@@ -189,10 +189,12 @@ def install(world):
             return dict(kw)
         if isinstance(x, (tuple, list)) and all(
                 isinstance(p, tuple) and len(p) == 2 for p in x):
+            if any(S.is_sym(k) for k, _ in x):
+                if kw:
+                    raise Unsupported('dict() with symbolic key and **kw')
+                return b_dict(it, node, PairStream(list(x)))
             d = {}
             for k, v in x:
-                if S.is_sym(k):
-                    raise Unsupported('dict() with symbolic key')
                 d[k] = v
             d.update(kw)
             return d
@@ -205,6 +207,10 @@ def install(world):
             return SMapCell(x.m)
         if isinstance(x, SMap):
             return SMapCell(x)
+        if isinstance(x, PairStream):
+            empty = SMap(z3.K(S.Val, z3.BoolVal(False)),
+                         z3.K(S.Val, S.NONE_VAL), TVal, TVal)
+            return x.into(SMapCell(empty))
         raise Unsupported('dict() of %r' % (x,))
     reg('dict', b_dict, True)
 
@@ -486,8 +492,19 @@ def install(world):
     reg('float', b_float)
 
     def b_frozenset(it, node, x=()):
+        if isinstance(x, S.SSet):
+            return S.SSet(x.arr, x.elem)
         if isinstance(x, (tuple, list, set, frozenset)):
+            if getattr(world, 'symbolic_sets', False) and not it.spec:
+                out = S.empty_set(TVal)
+                for e in x:
+                    out.arr = z3.Store(out.arr, TVal.unwrap(e),
+                                       z3.BoolVal(True))
+                return out
             return frozenset(x)
+        if isinstance(x, SVal):
+            v = z3.Const(S.fresh_name('e'), S.Val)
+            return S.SSet(z3.Lambda([v], S.py_in(x.t, v)), TVal)
         raise Unsupported('frozenset() of %r' % (x,))
     reg('frozenset', b_frozenset, True)
     for nm in ('str', 'int', 'bool', 'float', 'tuple', 'list', 'dict', 'set',
@@ -629,6 +646,14 @@ def install(world):
 
     def it_chain(it, node, *xs):
         from .world import IterSpec
+        if any(isinstance(x, PairStream) for x in xs):
+            parts = []
+            for x in xs:
+                pp = _pair_parts(x)
+                if pp is None:
+                    raise Unsupported('chain of a pair stream with %r' % (x,))
+                parts += pp
+            return PairStream(parts)
         cur = None
         last_iter = None
         prefix = None
@@ -804,6 +829,13 @@ def isinstance_one(world, it, x, c):
                         'Container', 'frozenset', 'Hashable')
     if isinstance(x, S.SIter):
         return name in ('Iterable', 'Iterator')
+    if isinstance(x, SMap) or type(x).__name__ == 'SMapCell':
+        # a symbolic builtin dict (the mutable cell) / mapping
+        return name in ('Mapping', 'Iterable', 'Sized', 'Collection',
+                        'Container', 'dict', 'MutableMapping')
+    if isinstance(x, S.SSet):
+        return name in ('Set', 'Iterable', 'Sized', 'Collection',
+                        'Container', 'frozenset', 'Hashable')
     if isinstance(x, (tuple, list, SSeq, MList)):
         kind = x.kind if isinstance(x, SSeq) else (
             'list' if isinstance(x, (list, MList)) else 'tuple')
@@ -952,6 +984,49 @@ def _rfind(window, sub, a, lo, n):
 
 # ------------------------------------------------------- sequences ----
 
+class PairStream:
+    """The (key, value) pairs of symbolic maps and explicit pairs, in order:
+    what `m.items()` and itertools.chain(...) of such produce, and what
+    dict(...) / dict.update(...) consume."""
+    pyvc_attrs = ()
+
+    def __init__(self, parts):
+        self.parts = parts      # SMap | (key, value)
+
+    def into(self, cell):
+        """Apply the stream to a mutable map cell, later pairs winning."""
+        for p in self.parts:
+            if isinstance(p, SMap):
+                m = cell.m
+                if p.key_t is not m.key_t or p.val_t is not m.val_t:
+                    raise Unsupported('maps of different key/value types')
+                k = z3.Const(S.fresh_name('k'), m.key_t.sort())
+                dom = z3.Lambda([k], z3.Or(z3.Select(m.dom, k),
+                                           z3.Select(p.dom, k)))
+                val = z3.Lambda([k], z3.If(z3.Select(p.dom, k),
+                                           z3.Select(p.val, k),
+                                           z3.Select(m.val, k)))
+                cell.m = SMap(dom, val, m.key_t, m.val_t)
+            else:
+                cell.store(p[0], p[1])
+        return cell
+
+
+def _pair_parts(x):
+    """-> list of stream parts, or None when x is not a stream of pairs."""
+    from .world import SMapCell
+    if isinstance(x, PairStream):
+        return list(x.parts)
+    if isinstance(x, SMapCell):
+        return [x.m]
+    if isinstance(x, SMap):
+        return [x]
+    if isinstance(x, (tuple, list)) and all(
+            isinstance(p, tuple) and len(p) == 2 for p in x):
+        return list(x)
+    return None
+
+
 def _stable_sort(items, key, reverse, it, node):
     import ast as _ast
     if S.is_sym(reverse):
@@ -1065,6 +1140,18 @@ def seq_method(world, o, name, args, kw, it, node):
             return None
         if name == 'copy':
             return S.SSet(o.arr, o.elem)
+        ALG = {'union': 'BitOr', 'intersection': 'BitAnd',
+               'difference': 'Sub', 'symmetric_difference': 'BitXor'}
+        if name in ALG and all(isinstance(a, S.SSet) for a in args):
+            cur = S.SSet(o.arr, o.elem)
+            for a in args:
+                cur = it.binop(ALG[name], cur, a, node)
+            return cur
+        if name in ('issubset', 'issuperset') and len(args) == 1 and \
+                isinstance(args[0], S.SSet):
+            import ast as _ast
+            return it.compare1(_ast.LtE() if name == 'issubset'
+                               else _ast.GtE(), o, args[0], node)
         raise Unsupported('set.%s on symbolic set' % name)
     if isinstance(o, (set,)):
         if name == 'add':
@@ -1131,6 +1218,13 @@ def dict_method(world, o, name, args, kw, it, node):
             it.raise_('KeyError', args[0], node=node)
         if name == 'copy':
             return SMapCell(m)
+        if name == 'items' and not args:
+            return PairStream([m])
+        if name == 'update' and isinstance(o, SMapCell) and len(args) == 1:
+            parts = _pair_parts(args[0])
+            if parts is not None:
+                PairStream(parts).into(o)
+                return None
         raise Unsupported('dict.%s on symbolic dict' % name)
     return NotImplemented
 
